@@ -16,7 +16,8 @@ RULE = (
     "snapshots before/after: (1) only included glyphs, glyphs reachable from them as components and the filter's declared targets change, (2) every changed / "
     "added / removed glyph is in the returned set, (3) with a separate glyph set the source font snapshot is unchanged, (4) the run on B with the reused "
     "object equals the run of a fresh object on an equal B (result and returned set), (5) an interpolatable filter gives each master the result the plain "
-    "filter gives that master alone (flatten / decompose / propagate). Non-trivial = the include spec selects a strict non-empty subset and some glyph "
+    "filter gives that master alone (flatten / decompose / propagate), (6) interpolatable filters also run with an Instantiator on two three-master families whose sparse "
+    "middle masters hold different glyphs: reused object == fresh object, and every changed/added glyph is reported. Name lists are passed as list, tuple, set or one-shot iterator. Non-trivial = the include spec selects a strict non-empty subset and some glyph "
     "changed. Distinct = case hash."
 )
 ASSUMPTIONS = [
